@@ -1,0 +1,52 @@
+//go:build verif
+
+package evaluator
+
+// This file is only built with the "verif" tag. It exposes a read-only,
+// structural view of the evaluator's global variables for external
+// verification harnesses. It adds no behaviour.
+
+// VerifOrderedMap is the structural form of an evy map value.
+type VerifOrderedMap struct {
+	Keys []string
+	Vals map[string]any
+}
+
+func verifStructural(v value) any {
+	switch v := v.(type) {
+	case nil:
+		return nil
+	case *numVal:
+		return v.V
+	case *stringVal:
+		return v.V
+	case *boolVal:
+		return v.V
+	case *anyVal:
+		return verifStructural(v.V)
+	case *arrayVal:
+		out := make([]any, len(*v.Elements))
+		for i, e := range *v.Elements {
+			out[i] = verifStructural(e)
+		}
+		return out
+	case *mapVal:
+		m := VerifOrderedMap{Vals: map[string]any{}}
+		m.Keys = append(m.Keys, (*v.Order)...)
+		for k, e := range v.Pairs {
+			m.Vals[k] = verifStructural(e)
+		}
+		return m
+	}
+	return "<unknown " + v.String() + ">"
+}
+
+// VerifGlobals returns all global variables (built-in ones included) in
+// structural form (float64, string, bool, []any, VerifOrderedMap).
+func (e *Evaluator) VerifGlobals() map[string]any {
+	out := map[string]any{}
+	for name, v := range e.global.values {
+		out[name] = verifStructural(v)
+	}
+	return out
+}
